@@ -11,7 +11,10 @@ use sourmash::signature::{Signature, SigsTrait};
 use sourmash::storage::SigStore;
 use sourmash::sketch::minhash::{max_hash_for_scaled, KmerMinHash, KmerMinHashBTree};
 use sourmash::sketch::Sketch;
-use std::collections::BTreeMap;
+use sourmash::ffi::minhash::{kmerminhash_add_from, kmerminhash_free, kmerminhash_new, SourmashKmerMinHash};
+use sourmash::ffi::utils::ForeignObject;
+use sourmash::ffi::HashFunctions as FfiHashFunctions;
+use std::collections::{BTreeMap, BTreeSet};
 use verif_harness::*;
 
 #[derive(Clone)]
@@ -118,6 +121,96 @@ fn parse_pairs(s: &str) -> Vec<(u64, u64)> {
         .collect()
 }
 
+
+fn ffi_mol(h: &HashFunctions) -> FfiHashFunctions {
+    match h {
+        HashFunctions::Murmur64Protein => FfiHashFunctions::Murmur64Protein,
+        HashFunctions::Murmur64Dayhoff => FfiHashFunctions::Murmur64Dayhoff,
+        HashFunctions::Murmur64Hp => FfiHashFunctions::Murmur64Hp,
+        _ => FfiHashFunctions::Murmur64Dna,
+    }
+}
+
+/// the JSON text `Serialize` writes for a sketch with the given fields (hashes in the given order)
+fn sketch_json(num: u32, ksize: u32, seed: u64, max_hash: u64, m: &str, track: bool, items: &[(u64, u64)]) -> String {
+    let mut sorted: Vec<u64> = items.iter().map(|p| p.0).collect();
+    sorted.sort();
+    let md5 = KmerMinHash::builder().num(0u32).ksize(ksize).mins(sorted).build().md5sum();
+    let mins: Vec<String> = items.iter().map(|p| p.0.to_string()).collect();
+    let abs: Vec<String> = items.iter().map(|p| p.1.to_string()).collect();
+    format!(
+        "{{\"num\":{},\"ksize\":{},\"seed\":{},\"max_hash\":{},\"mins\":[{}],\"md5sum\":\"{}\",{}\"molecule\":\"{}\"}}",
+        num,
+        ksize,
+        seed,
+        max_hash,
+        mins.join(","),
+        md5,
+        if track { format!("\"abundances\":[{}],", abs.join(",")) } else { String::new() },
+        m
+    )
+}
+
+/// a sketch that is NOT made by `new` + insertions: the public builders (`b`: content handed over,
+/// the tree's `current_max` left at its default; `bc`: the tree's `current_max` given too) or
+/// `Deserialize` of a JSON document (`js`, hashes in the order given)
+fn build_reg(tree: bool, ctor: &str, max_hash: u64, num: u32, ksize: u32, m: &str, seed: u64, track: bool, items: &[(u64, u64)]) -> Option<Reg> {
+    Some(match (ctor, tree) {
+        ("js", false) => Reg::V(serde_json::from_str(&sketch_json(num, ksize, seed, max_hash, m, track, items)).unwrap()),
+        ("js", true) => Reg::T(serde_json::from_str(&sketch_json(num, ksize, seed, max_hash, m, track, items)).unwrap()),
+        ("b" | "bc", false) => Reg::V(
+            KmerMinHash::builder()
+                .num(num)
+                .ksize(ksize)
+                .hash_function(mol(m))
+                .seed(seed)
+                .max_hash(max_hash)
+                .mins(items.iter().map(|p| p.0).collect::<Vec<u64>>())
+                .abunds(if track { Some(items.iter().map(|p| p.1).collect::<Vec<u64>>()) } else { None })
+                .build(),
+        ),
+        ("b", true) => Reg::T(
+            KmerMinHashBTree::builder()
+                .num(num)
+                .ksize(ksize)
+                .hash_function(mol(m))
+                .seed(seed)
+                .max_hash(max_hash)
+                .mins(items.iter().map(|p| p.0).collect::<BTreeSet<u64>>())
+                .abunds(if track { Some(items.iter().cloned().collect::<BTreeMap<u64, u64>>()) } else { None })
+                .build(),
+        ),
+        ("bc", true) => Reg::T(
+            KmerMinHashBTree::builder()
+                .num(num)
+                .ksize(ksize)
+                .hash_function(mol(m))
+                .seed(seed)
+                .max_hash(max_hash)
+                .mins(items.iter().map(|p| p.0).collect::<BTreeSet<u64>>())
+                .abunds(if track { Some(items.iter().cloned().collect::<BTreeMap<u64, u64>>()) } else { None })
+                .current_max(items.iter().map(|p| p.0).max().unwrap_or(0))
+                .build(),
+        ),
+        _ => return None,
+    })
+}
+
+/// `Clone`, the `From` conversions to the other container type and back (by value / through the
+/// by-reference impl where there is one), `Serialize` -> `Deserialize`
+fn convert(r: &Reg, how: &str) -> Option<Reg> {
+    Some(match (how, r) {
+        ("clone", x) => x.clone(),
+        ("rt", Reg::V(x)) => Reg::V(KmerMinHash::from(KmerMinHashBTree::from(x.clone()))),
+        ("rtr", Reg::V(x)) => Reg::V(KmerMinHash::from(&KmerMinHashBTree::from(x.clone()))),
+        ("rt", Reg::T(x)) => Reg::T(KmerMinHashBTree::from(KmerMinHash::from(x.clone()))),
+        ("rtr", Reg::T(x)) => Reg::T(KmerMinHashBTree::from(KmerMinHash::from(x))),
+        ("serde", Reg::V(x)) => Reg::V(serde_json::from_str(&serde_json::to_string(x).unwrap()).unwrap()),
+        ("serde", Reg::T(x)) => Reg::T(serde_json::from_str(&serde_json::to_string(x).unwrap()).unwrap()),
+        _ => return None,
+    })
+}
+
 struct St {
     tree: bool,
     regs: BTreeMap<u64, Reg>,
@@ -161,9 +254,9 @@ fn step(st: &mut St, ws: &[&str]) -> String {
     let n = |i: usize| -> u64 { ws[i].parse().unwrap() };
     // operand registers must exist (a refused downsample leaves its target register unset)
     let srcs: &[usize] = match ws[0] {
-        "obs" | "scaled" | "add" | "set" | "rm" | "clear" | "md5" => &[1],
-        "copy" | "ds" | "dsm" => &[2],
-        "merge" | "isect" | "cc" | "sim" | "ccx" | "simx" | "iszx" | "gstats" | "gstatsx" => &[1, 2],
+        "obs" | "scaled" | "add" | "addm" | "set" | "rm" | "clear" | "md5" => &[1],
+        "copy" | "ds" | "dsm" | "conv" | "pour" => &[2],
+        "merge" | "isect" | "cc" | "sim" | "ccx" | "simx" | "iszx" | "gstats" | "gstatsx" | "addfrom" | "caddfrom" | "rmfrom" => &[1, 2],
         _ => &[],
     };
     if srcs.iter().any(|&i| !st.regs.contains_key(&n(i))) {
@@ -188,6 +281,96 @@ fn step(st: &mut St, ws: &[&str]) -> String {
             };
             st.regs.insert(n(1), r);
             "ok".into()
+        }
+        // build R ctor max_hash num ksize mol seed track items
+        "build" => match build_reg(st.tree, ws[2], n(3), n(4) as u32, n(5) as u32, ws[6], n(7), ws[8] == "1", &parse_pairs(ws[9])) {
+            Some(r) => {
+                let s = obs(&r);
+                st.regs.insert(n(1), r);
+                s
+            }
+            None => "bad-op".into(),
+        },
+        "newdef" => {
+            let r = if st.tree { Reg::T(KmerMinHashBTree::default()) } else { Reg::V(KmerMinHash::default()) };
+            let s = obsp(&r);
+            st.regs.insert(n(1), r);
+            s
+        }
+        // conv R1 R2 how : R1 := R2 through Clone / From conversions / serde
+        "conv" => match convert(&st.regs[&n(2)], ws[3]) {
+            Some(r) => {
+                let s = obsp(&r);
+                st.regs.insert(n(1), r);
+                s
+            }
+            None => "bad-op".into(),
+        },
+        // addm R h,h,.. : add_many
+        "addm" => {
+            let hs = parse_nats(ws[2]);
+            let r = st.regs.get_mut(&n(1)).unwrap();
+            match r {
+                Reg::V(x) => x.add_many(&hs).unwrap(),
+                Reg::T(x) => x.add_many(&hs).unwrap(),
+            }
+            obs(r)
+        }
+        // addfrom R1 R2 / rmfrom R1 R2 : no compatibility check in either; caddfrom: the C API export
+        "addfrom" | "rmfrom" | "caddfrom" => {
+            let b = st.regs[&n(2)].clone();
+            let r = st.regs.get_mut(&n(1)).unwrap();
+            match (ws[0], &mut *r, &b) {
+                ("addfrom", Reg::V(x), Reg::V(y)) => x.add_from(y).unwrap(),
+                ("addfrom", Reg::T(x), Reg::T(y)) => x.add_from(y).unwrap(),
+                ("rmfrom", Reg::V(x), Reg::V(y)) => x.remove_from(y).unwrap(),
+                ("rmfrom", Reg::T(x), Reg::T(y)) => x.remove_many(y.mins()).unwrap(),
+                ("caddfrom", Reg::V(x), Reg::V(y)) => unsafe {
+                    let h = SourmashKmerMinHash::from_rust(x.clone());
+                    kmerminhash_add_from(h, SourmashKmerMinHash::from_ref(y));
+                    *x = *SourmashKmerMinHash::into_rust(h);
+                },
+                _ => return "bad-op".into(),
+            }
+            obs(r)
+        }
+        // pour R1 R2 s how : the "sketch at the new value and pour the old one in" way of downsampling:
+        // R1 := new(s, parameters of R2), then add_from(R2) (native), kmerminhash_new +
+        // kmerminhash_add_from (capi), add_many(R2.mins()) (many), add_many_with_abund(R2.to_vec_abunds()) (abund)
+        "pour" => {
+            let s = n(3);
+            let r = match (&st.regs[&n(2)], ws[4]) {
+                (Reg::V(y), "capi") => unsafe {
+                    let h = kmerminhash_new(s, y.ksize() as u32, ffi_mol(&y.hash_function()), y.seed(), y.track_abundance(), y.num());
+                    kmerminhash_add_from(h, SourmashKmerMinHash::from_ref(y));
+                    let out = SourmashKmerMinHash::as_rust(h).clone();
+                    kmerminhash_free(h);
+                    Reg::V(out)
+                },
+                (Reg::V(y), how) => {
+                    let mut x = KmerMinHash::new(s, y.ksize() as u32, y.hash_function(), y.seed(), y.track_abundance(), y.num());
+                    match how {
+                        "native" => x.add_from(y).unwrap(),
+                        "many" => x.add_many(&y.mins()).unwrap(),
+                        "abund" => x.add_many_with_abund(&y.to_vec_abunds()).unwrap(),
+                        _ => return "bad-op".into(),
+                    }
+                    Reg::V(x)
+                }
+                (Reg::T(y), how) => {
+                    let mut x = KmerMinHashBTree::new(s, y.ksize() as u32, y.hash_function(), y.seed(), y.track_abundance(), y.num());
+                    match how {
+                        "native" => x.add_from(y).unwrap(),
+                        "many" => x.add_many(&y.mins()).unwrap(),
+                        "abund" => x.add_many_with_abund(&y.to_vec_abunds()).unwrap(),
+                        _ => return "bad-op".into(),
+                    }
+                    Reg::T(x)
+                }
+            };
+            let o = obs(&r);
+            st.regs.insert(n(1), r);
+            o
         }
         "copy" => {
             let b = st.regs[&n(2)].clone();
@@ -581,6 +764,7 @@ fn fill(o: &mut Out, r: &mut Rng, reg: u64, tmp: u64, s: u64, num: u64, track: b
             ks.push(r.bits(64)); // a hash that is (almost surely) not there
             o.op(&format!("add {} {}", reg, show_items(&junk)));
             o.op(&format!("md5 {}", reg));
+            let ks = dup_shuffle(r, &ks);
             o.op(&format!("rm {} {}", reg, show_nats(ks)));
             o.op(&format!("add {} {}", reg, show_items(it)));
         }
@@ -605,7 +789,7 @@ fn fill(o: &mut Out, r: &mut Rng, reg: u64, tmp: u64, s: u64, num: u64, track: b
             o.op(&format!("add {} {}", reg, show_items(it)));
             o.op(&format!("md5 {}", reg));
             let ks: Vec<u64> = keys_of(it).into_iter().filter(|_| r.chance(1, 3)).collect();
-            o.op(&format!("rm {} {}", reg, show_nats(ks.clone())));
+            o.op(&format!("rm {} {}", reg, show_nats(dup_shuffle(r, &ks))));
             let again: Vec<(u64, u64)> = it.iter().filter(|p| ks.contains(&p.0)).cloned().collect();
             o.op(&format!("add {} {}", reg, show_items(&again)));
         }
@@ -613,6 +797,80 @@ fn fill(o: &mut Out, r: &mut Rng, reg: u64, tmp: u64, s: u64, num: u64, track: b
             o.op(&format!("add {} {}", reg, show_items(it)));
             o.op(&format!("md5 {}", reg));
         }
+    }
+}
+
+
+/// a removal / insertion list as callers hand them over: not sorted, some entries repeated
+fn dup_shuffle(r: &mut Rng, ks: &[u64]) -> Vec<u64> {
+    let mut v: Vec<u64> = ks.to_vec();
+    for &k in ks {
+        if r.chance(1, 3) {
+            v.push(k);
+        }
+    }
+    for i in (1..v.len()).rev() {
+        let j = r.below(i as u64 + 1) as usize;
+        v.swap(i, j);
+    }
+    v
+}
+
+/// what a sketch with ceiling `mh` and bound `num` holds after the insertions `it`; `None` when the
+/// bound would cut (a vector-type sketch with both bounds is then order dependent)
+fn content(it: &[(u64, u64)], mh: u64, num: u64) -> Option<Vec<(u64, u64)>> {
+    let mut m: BTreeMap<u64, u64> = BTreeMap::new();
+    for (h, a) in it {
+        if mh == 0 || *h <= mh {
+            *m.entry(*h).or_insert(0) += a;
+        }
+    }
+    if num != 0 && m.len() as u64 > num {
+        return None;
+    }
+    Some(m.into_iter().collect())
+}
+
+/// register `reg` := a sketch with parameters (s, num, track) standing for the insertions `it`: made
+/// by `new` + a life (`fill`), or handed over ready-made to a public constructor (builder with and
+/// without the tree's `current_max`, JSON document with the hashes in any order); afterwards sometimes
+/// sent through `Clone`, the `From` conversions or a serde round trip
+fn make(o: &mut Out, r: &mut Rng, tree: bool, reg: u64, tmp: u64, s: u64, num: u64, track: bool, it: &[(u64, u64)], u: &[u64]) {
+    let mh = max_hash_for_scaled(s);
+    let ready = if r.chance(1, 3) { content(it, mh, num) } else { None };
+    match ready {
+        Some(mut c) => {
+            let ctor = match r.below(4) {
+                0 if num == 0 || mh == 0 => "js",
+                // a pure num tree sketch with a stale cache refuses smaller hashes afterwards
+                // (corpus/C03/builder-stale-max.ops); the downsampling ops never add to such a sketch,
+                // but the pour ops do
+                1 => "bc",
+                _ if tree && mh == 0 => "bc",
+                _ => "b",
+            };
+            if ctor == "js" {
+                for i in (1..c.len()).rev() {
+                    let j = r.below(i as u64 + 1) as usize;
+                    c.swap(i, j);
+                }
+            }
+            o.op(&format!("build {} {} {} {} 21 dna 42 {} {}", reg, ctor, mh, num, track as u8, show_items(&c)));
+        }
+        None => {
+            o.op(&new_line(reg, s, num, track));
+            fill(o, r, reg, tmp, s, num, track, it, u);
+        }
+    }
+    if r.chance(1, 4) {
+        let how = match r.below(4) {
+            0 => "clone",
+            1 => "rt",
+            2 => "rtr",
+            _ if num == 0 || mh == 0 => "serde",
+            _ => "clone",
+        };
+        o.op(&format!("conv {} {} {}", reg, reg, how));
     }
 }
 
@@ -724,7 +982,7 @@ fn gen(a: &Args) {
     } else if a.tier == "thorough" {
         400
     } else {
-        20
+        50
     };
     let mut ci = 0u64;
     for round in 0..rounds {
@@ -743,12 +1001,10 @@ fn gen(a: &Args) {
                 let na = pick_num(&mut r, u.len());
                 let nb = pick_num(&mut r, u.len());
                 o.case(&format!("{} pair {} {} num {} {}", ty, s, s2, na, nb));
-                o.op(&new_line(0, s, na, ta));
-                o.op(&new_line(1, s2, nb, tb));
                 let ia = items(&mut r, &u, 3, 4);
                 let ib = items(&mut r, &u, 3, 4);
-                fill(&mut o, &mut r, 0, 20, s, na, ta, &ia, &u);
-                fill(&mut o, &mut r, 1, 21, s2, nb, tb, &ib, &u);
+                make(&mut o, &mut r, ty == "tree", 0, 20, s, na, ta, &ia, &u);
+                make(&mut o, &mut r, ty == "tree", 1, 21, s2, nb, tb, &ib, &u);
                 o.op("scaled 0");
                 o.op("obs 0");
                 // downsample of a to s2 (refused when s2 < s), idempotence, composition through s3
@@ -765,6 +1021,18 @@ fn gen(a: &Args) {
                 o.op(&format!("add 7 {}", show_items(&ia)));
                 // downsample_max_hash with the ceiling of s2
                 o.op(&format!("dsm 8 0 {}", max_hash_for_scaled(s2)));
+                // the same downsampling done by pouring: an empty sketch at s2 takes the hashes of a
+                // through an entry point that checks nothing - every hash must still pass the
+                // receiver's own ceiling (coarser, equal and finer receivers all occur: s2 vs s)
+                let hows: &[&str] = if ty == "vec" { &["native", "capi", "capi", "many", "abund"] } else { &["native", "native", "many", "abund"] };
+                o.op(&format!("pour 22 0 {} {}", s2, r.pick(hows)));
+                o.op("md5 22");
+                o.op("cc 22 2 0");
+                o.op("sim 22 7 1 0");
+                o.op(&format!("pour 23 0 {} {}", s2.max(s3), r.pick(hows)));
+                o.op(&format!("pour 23 1 {} {}", s, r.pick(hows)));
+                o.op("cc 0 23 0");
+                o.op("sim 23 0 1 0");
                 // every comparison entry point with downsample = true, both argument orders
                 for op in [
                     "cc 0 1 1", "cc 1 0 1", "ccx 0 1", "ccx 1 0", "iszx 0 1", "iszx 1 0",
@@ -797,12 +1065,34 @@ fn gen(a: &Args) {
                 o.op("md5 12");
                 o.op("isect 12 13");
                 o.op("isect 0 9");
+                // pouring a, then b, into an empty sketch at m = downsample of the merge (hashes)
+                o.op(&format!("pour 24 0 {} {}", m, r.pick(hows)));
+                o.op(if ty == "vec" && r.chance(1, 2) { "caddfrom 24 9" } else { "addfrom 24 9" });
+                o.op("md5 24");
+                o.op("cc 24 11 0");
+                // a NON-empty receiver at another scaled (coarser, equal, finer), both directions;
+                // removal lists and insertion lists unsorted and with repeats
+                o.op("copy 25 1");
+                o.op(if ty == "vec" && r.chance(1, 2) { "caddfrom 25 0" } else { "addfrom 25 0" });
+                o.op("md5 25");
+                o.op("copy 26 0");
+                o.op("addfrom 26 1");
+                o.op("rmfrom 26 1");
+                o.op(&format!("addm 26 {}", show_nats(dup_shuffle(&mut r, &keys_of(&ib)))));
+                o.op(&format!("rm 26 {}", show_nats(dup_shuffle(&mut r, &keys_of(&ia)))));
+                o.op("md5 26");
                 // Signature::select at s2 (and with a second sketch at another scaled, and a num
                 // sketch), next to the explicit route
                 o.op(&format!("sel {} 0", s2));
                 o.op(&format!("selx {} 0", s2));
-                o.op(&new_line(14, 0, 5, ta));
-                o.op(&format!("add 14 {}", show_items(&ia)));
+                let mut c14 = content(&ia, 0, 0).unwrap();
+                c14.truncate(5);
+                if r.chance(1, 2) {
+                    o.op(&format!("build 14 {} 0 5 21 dna 42 {} {}", if r.chance(1, 3) { "js" } else { "bc" }, ta as u8, show_items(&c14)));
+                } else {
+                    o.op(&new_line(14, 0, 5, ta));
+                    o.op(&format!("add 14 {}", show_items(&ia)));
+                }
                 o.op(&format!("sel {} 0 1 14", s2.max(s3)));
                 o.op(&format!("selx {} 0 1 14", s2.max(s3)));
                 o.op(&format!("sel {} 14", s2));
@@ -812,6 +1102,17 @@ fn gen(a: &Args) {
                 o.op("cc 14 14 1");
                 o.op("cc 0 14 1");
                 o.op("obs 14");
+                // num receiver / scaled source and the other way round
+                o.op("copy 27 14");
+                o.op("addfrom 27 1");
+                o.op("copy 28 1");
+                o.op("addfrom 28 14");
+                o.op("md5 28");
+                if r.chance(1, 8) {
+                    o.op("newdef 29");
+                    o.op("addfrom 29 0");
+                    o.op(&format!("ds 29 29 {}", s2));
+                }
             }
         }
     }
